@@ -26,6 +26,7 @@ Acc(t, x) ==
     [] t.k = "none_of" -> ~\E i \in 1..Len(t.c) : Acc(t.c[i], x)
     [] t.k = "member"  -> Acc(t.c[1], [x EXCEPT !.v = x.f[t.v]])
     [] t.k = "re"      -> x.n = 0 /\ x.found = 1
+    [] t.k = "isnull"  -> x.n = 1                               \* eq(nullptr) on a null-comparable argument
     [] OTHER           -> Assert(FALSE, <<"unknown matcher kind", t.k>>)
 
 (* ---- range matchers: subject is a sequence r of integers ---- *)
